@@ -10,6 +10,7 @@ import (
 	"sort"
 	"strconv"
 	"strings"
+	"verif/harness/internal/stlx"
 
 	astisub "github.com/asticode/go-astisub"
 )
@@ -145,10 +146,30 @@ func derivedDocsScaled(base []doc, large bool, scale int) []doc {
 			out = append(out, doc{d.Name + "+trunc", d.Fmt, d.Data[:len(d.Data)*2/3]})
 		}
 	}
+	out = append(out, stlChains()...)
 	if large {
 		out = append(out, largeDocs(scale)...)
 	}
 	return out
+}
+
+// stlChains: well-formed STL files in which the counts of the GSI block differ from each other and from the number
+// of cues the reader returns: a subtitle continued over several TTI blocks (extension block numbers 00h.. then FFh)
+// counts once in TNS and once per block in TNB, and user-data blocks (FEh) count in TNB only.
+func stlChains() []doc {
+	blk := func(ebn, sec int, text string) stlx.TTI {
+		var tf []int
+		for _, c := range []byte(text) {
+			tf = append(tf, int(c))
+		}
+		return stlx.TTI{Ebn: ebn, Tci: [4]int{0, 0, sec, 0}, Tco: [4]int{0, 0, sec + 1, 0}, Vp: 20, Jc: 2, Tf: tf}
+	}
+	meta := map[string]int{"mnr": 23, "mnc": 40}
+	return []doc{
+		{"chain-first.stl", "stl", stlx.Pack(stlx.Doc{Fps: 25, Dsc: 0, Meta: meta, Ttis: []stlx.TTI{blk(0, 1, "continued"), blk(255, 1, "subtitle"), blk(255, 3, "last one")}})},
+		{"chain-last.stl", "stl", stlx.Pack(stlx.Doc{Fps: 25, Dsc: 0, Meta: meta, Ttis: []stlx.TTI{blk(255, 1, "first one"), blk(0, 3, "continued"), blk(1, 3, "twice"), blk(255, 3, "subtitle")}})},
+		{"userdata-last.stl", "stl", stlx.Pack(stlx.Doc{Fps: 25, Dsc: 0, Meta: meta, Ttis: []stlx.TTI{blk(255, 1, "first one"), blk(255, 3, "second one"), blk(254, 0, "user data")}})},
+	}
 }
 
 func largeSRT(n int, eol string) []byte {
